@@ -17,6 +17,15 @@ import collections, itertools, json, os, random
 import vlib, adef
 from checks import gen_common
 
+
+def _big_stack():
+    """coqc reads back result strings of ~100 KB (deeply nested constructors): lift the 8 MB stack limit for children"""
+    import resource
+    try:
+        resource.setrlimit(resource.RLIMIT_STACK, (resource.RLIM_INFINITY, resource.RLIM_INFINITY))
+    except (ValueError, OSError):
+        pass
+
 RULE = ("one inline enum as the conversion of a field in an otherwise valid register (10 % of the random cases: several "
         "enums in commands / nested blocks). EXHAUSTIVE part: widths 1..3 x every variant list of length 0..3 over the value "
         "pool {implicit, 0, 1, 2^w-1, 2^w, -1, default, catch_all} x try/non-try (quick and thorough; thorough adds width 4 "
@@ -208,6 +217,7 @@ def evaluate(ctx, exe, items, tag):
 
 
 def run(ctx):
+    _big_stack()
     info = vlib.coq_gate(ctx)
     exe, err = gen_common.build_gen_runner(ctx)
     if err:
@@ -288,6 +298,7 @@ def replay(ctx, path):
     if not fi:
         run(ctx)
         return
+    _big_stack()
     vlib.coq_gate(ctx)
     exe, err = gen_common.build_gen_runner(ctx)
     res = gen_common.run_gen(ctx, exe, [{"id": "r", "syntax": fi["syntax"], "text": fi["text"], "name": "Dev", "want": ["mir", "facts"]}])
